@@ -31,6 +31,9 @@ pub fn kinds_for(prop: &str) -> Vec<&'static str> {
 }
 
 fn hist(thorough: bool, elems: bool, ranges: bool, capacity: bool, clones: bool) -> HistParams {
+    if cfg!(miri) || std::env::args().any(|a| a == "--sample") {
+        return HistParams { histories: 1, ops: if thorough { 150 } else { 30 }, max_len: 20, ranges, elems, capacity, clones, invalid_pct: 6 };
+    }
     HistParams {
         histories: if thorough { 400 } else { 12 },
         ops: if thorough { 2000 } else { 300 },
@@ -47,6 +50,18 @@ pub fn run(ctx: &mut Ctx) {
     let mut cfgs = configs::all();
     if ctx.sub == "light" || ctx.tool_mode {
         cfgs.retain(|c| c.core);
+    }
+    // tool modes select a backend class (different Miri flags) and may exclude pointer-carrying elements
+    if let Some(m) = std::env::args().collect::<Vec<_>>().windows(2).find(|w| w[0] == "--mem").map(|w| w[1].clone()) {
+        use hvcore::rigapi::MemKind;
+        cfgs.retain(|c| match m.as_str() {
+            "stack" => matches!(c.mem, MemKind::Stack | MemKind::StackN),
+            "heapguard" => matches!(c.mem, MemKind::Heap | MemKind::Guard),
+            _ => true,
+        });
+    }
+    if std::env::args().any(|a| a == "--pointer-free") {
+        cfgs.retain(|c| !c.elem.heap);
     }
     let thorough = ctx.thorough();
     let l = if thorough { 7 } else { 4 };
@@ -89,7 +104,12 @@ pub fn run(ctx: &mut Ctx) {
         "C05" => {
             use hvcore::rigapi::MemKind;
             cfgs.retain(|c| matches!(c.mem, MemKind::Guard | MemKind::Heap));
-            for g in [hvcore::guard::Growth::Exact, hvcore::guard::Growth::Double, hvcore::guard::Growth::Slack3] {
+            let growths: &[hvcore::guard::Growth] = if ctx.sampled && !thorough {
+                &[hvcore::guard::Growth::Exact]
+            } else {
+                &[hvcore::guard::Growth::Exact, hvcore::guard::Growth::Double, hvcore::guard::Growth::Slack3]
+            };
+            for g in growths.iter().copied() {
                 hvcore::guard::set_default_growth(g);
                 let sub: Vec<_> = cfgs.iter().filter(|c| g == hvcore::guard::Growth::Exact || (c.mem == MemKind::Guard && c.core)).cloned().collect();
                 let tag = format!("{g:?}");
